@@ -652,7 +652,77 @@ func (r *run) c20discoverErrors(base int) {
 	}
 }
 
+// c20discoverFlood: responders keep answering across the end of the discovery time (a device that
+// answers late or repeatedly, several devices at once): whatever the receiver of the discovery socket
+// is doing at the moment of the timeout, the call returns on time and leaves no goroutine and no
+// bound port behind.  (What it returns is not examined here: which responses made it before the
+// deadline is not determined.)
+func (r *run) c20discoverFlood(rounds int) {
+	base := quiesce()
+	port := 41000 + r.g.R.Intn(10000)
+	for i := 0; i < rounds && hung < 3; i++ {
+		port++
+		timeout := r.g.Pick(10, 20, 30, 50)
+		group := net.IPv4(239, 23, 12, byte(1+port%200))
+		addr := fmt.Sprintf("%s:%d", group, port)
+		op := fmt.Sprintf("discover with responders answering continuously across the deadline (timeout %d ms)", timeout)
+		inflight(op)
+		c, err := net.DialUDP("udp4", nil, &net.UDPAddr{IP: group, Port: port})
+		if err != nil {
+			r.classes["discover-unavailable: "+err.Error()]++
+			return
+		}
+		frame := r.searchRes()
+		stop := make(chan struct{})
+		fdone := make(chan struct{})
+		go func() {
+			defer close(fdone)
+			for k := 0; ; k++ {
+				select {
+				case <-stop:
+					return
+				default:
+				}
+				c.Write(frame)
+				if k%8 == 7 {
+					time.Sleep(50 * time.Microsecond)
+				}
+			}
+		}()
+		t0 := time.Now()
+		_, derr, returned := discoverBounded(addr, timeout)
+		el := time.Since(t0)
+		time.Sleep(5 * time.Millisecond) // the flood goes on for a moment after the return
+		close(stop)
+		<-fdone
+		c.Close()
+		if !returned {
+			r.violation("discover-hung", op, "no return 3 s after the timeout")
+			continue
+		}
+		if derr != nil {
+			r.classes["discover-unavailable: "+derr.Error()]++
+			return
+		}
+		if over := el - time.Duration(timeout)*time.Millisecond; over > slack*time.Millisecond {
+			r.violation("discover-returned-late", op, fmt.Sprintf("returned %v after the call", el))
+		}
+		if udpPortBound(port) {
+			time.Sleep(20 * time.Millisecond)
+			if udpPortBound(port) {
+				r.violation("discover-socket-not-released", op, fmt.Sprintf("port %d still bound after the return", port))
+			}
+		}
+		if n := settleGoroutines(base); n > base {
+			r.violation("discover-goroutine-left", op, fmt.Sprintf("%d goroutines after the return, %d before", n, base)+stacks())
+			base = quiesce()
+		}
+		r.classes["discover-flood-across-deadline"]++
+	}
+}
+
 func (r *run) c20(budget int) {
 	r.c20describe(budget * 6 / 10)
 	r.c20discover(budget * 4 / 10)
+	r.c20discoverFlood(6 + budget/20)
 }
